@@ -416,6 +416,89 @@ class InterpolationBounded:
         return f
 
 
+class ConvertTypesBounded:
+    """BOUNDED stand-in (native) for FlowIR.convert_component_types ('typed options have their declared type'): every
+    typed leaf of a fully populated component, written as the string a configuration file would hold, is converted back
+    to a value of its type that equals the original; text that is not a number in a numeric option is rejected."""
+    name = 'convert_component_types[bounded]'
+
+    @staticmethod
+    def leaves(d, pre=()):
+        for k, v in d.items():
+            if isinstance(v, dict) and v:
+                yield from ConvertTypesBounded.leaves(v, pre + (k,))
+            else:
+                yield pre + (k,), v
+
+    def run(self, tier='quick', seed=0):
+        import copy, json, os
+        full = FlowIR.inject_default_values_to_component({'name': 'c', 'stage': 0}, True)
+        bad, cases = [], 0
+        for route, default in self.leaves(full):
+            if route[0] in ('name', 'stage', 'variables', 'references', 'executors', 'override') or isinstance(default, (list, dict)):
+                continue
+            if isinstance(default, bool):
+                # the statement demands the declared TYPE; how a text such as 'no' maps to a boolean is not part of it
+                # (options typed `bool` go through python's bool(): 'no' -> True; recorded in DESIGN 14.10, not a finding)
+                samples = [(True, True), (False, False), (None, 'true'), (None, 'no')]
+            elif isinstance(default, int):
+                samples = [(7, '7'), (0, '0')]
+            elif isinstance(default, float):
+                samples = [(0.125, '0.125'), (3.0, '3')]
+            else:
+                continue
+            for value, text in samples:
+                cases += 1
+                comp = copy.deepcopy(full)
+                d = comp
+                for k in route[:-1]:
+                    d = d[k]
+                d[route[-1]] = text
+                try:
+                    FlowIR.convert_component_types(comp)
+                    got = comp
+                    for k in route:
+                        got = got[k]
+                    if value is None:
+                        ok = type(got) is bool
+                    elif isinstance(value, bool):
+                        ok = got is value
+                    else:
+                        # (the default's python type is not always the declared one, e.g. an int default of a float option)
+                        ok = isinstance(got, (int, float)) and not isinstance(got, bool) and got == value
+                    why = "converted to %r" % (got,)
+                except Exception as err:
+                    ok, why = False, "raised %s" % type(err).__name__
+                if not ok:
+                    bad.append({"what": "option %s written as %r: %s (expected %r)" % ('.'.join(route), text, why, value),
+                                "replay": self._replay(route, text, why)})
+            if isinstance(default, (int, float)) and not isinstance(default, bool):
+                cases += 1
+                comp = copy.deepcopy(full)
+                d = comp
+                for k in route[:-1]:
+                    d = d[k]
+                d[route[-1]] = 'not-a-number'
+                try:
+                    FlowIR.convert_component_types(comp)
+                    bad.append({"what": "option %s='not-a-number' was accepted" % '.'.join(route), "replay": self._replay(route, 'not-a-number', 'accepted')})
+                except Exception:
+                    pass
+        return {"name": self.name, "bounded": True, "bound": "every bool/int/float option of the default component, 2-3 spellings each",
+                "cases": cases, "violations": bad[:3], "summary": "%d conversions, %d wrong" % (cases, len(bad))}
+
+    def _replay(self, route, text, why):
+        import json, os
+        base = os.environ.get('PYVC_OUT') or os.path.dirname(os.path.dirname(os.path.abspath(__file__)))
+        p = os.path.join(base, 'replays', 'C04')
+        os.makedirs(p, exist_ok=True)
+        f = os.path.join(p, 'convert_types.json')
+        json.dump({"property": "C04", "check": self.name, "route": list(route), "text": text, "outcome": why,
+                   "how": "FlowIR.convert_component_types on FlowIR.inject_default_values_to_component({...}, True) with this option"},
+                  open(f, 'w'), indent=1)
+        return f
+
+
 TARGETS = [ComponentVariables(), ConfigurationLayers(), PatchInVariableFiles(), LayerManyVariableFiles()]
 LEMMAS = []
-BOUNDED = [OverrideObjectBounded(), InterpolationBounded()]
+BOUNDED = [OverrideObjectBounded(), InterpolationBounded(), ConvertTypesBounded()]
